@@ -866,6 +866,32 @@ func (g *gen) holes() {
 	g.feat("holes")
 }
 
+// filteredDelete: DeleteAll over a filtered selection, after reading an aggregate in the same transaction
+// (a filter or aggregate that disturbs the selection shows in what gets deleted)
+func (g *gen) filteredDelete() {
+	if len(g.live) < 2 {
+		return
+	}
+	g.nTxn++
+	tid := fmt.Sprintf("f%d", g.nTxn)
+	g.emit("p begin " + tid)
+	f := g.filter()
+	nums := g.colsOf(func(c genCol) bool { return isNum(c.kind) })
+	if len(nums) > 0 && g.r.Intn(2) == 0 {
+		g.emit(fmt.Sprintf("p %s select %s => %s:%s", tid, f, []string{"sum", "min", "max", "avg"}[g.r.Intn(4)], nums[g.r.Intn(len(nums))].name))
+		g.emit(fmt.Sprintf("p %s select => deleteall", tid))
+	} else {
+		g.emit(fmt.Sprintf("p %s select %s => deleteall", tid, f))
+	}
+	if g.r.Intn(4) == 0 {
+		g.emit("p rollback " + tid)
+	} else {
+		g.emit("p commit " + tid)
+	}
+	g.syncLive(g.emit("p dump"))
+	g.feat("filtered-deleteall")
+}
+
 func (g *gen) names(n int) string {
 	var pool []string
 	pool = append(pool, g.indexes...)
@@ -1125,7 +1151,11 @@ func genStoreCase(r *rand.Rand, p profile, rep *Report, id int) Case {
 				g.dumpAll()
 			}
 		case x < 24:
-			g.holes()
+			if r.Intn(3) == 0 {
+				g.filteredDelete()
+			} else {
+				g.holes()
+			}
 		case x < 27:
 			g.dumpAll()
 		case x < 28:
